@@ -626,7 +626,9 @@ class C2Profile(ConfigBlock):
                 for item in value:
                     if " " in item:
                         option, _, val = item.partition(" ")
-                        val = val[1:-1]
+                        # module and function names are data, not profile syntax: hand them to value_to_string as bytes
+                        # (parse_execute_list decoded them as UTF-8) so that backslashes are escaped like everywhere else
+                        val = val[1:-1].encode()
                         if option == "CreateThread":
                             exec_options.set_option("createthread_special", val)
                         elif option == "CreateRemoteThread":
